@@ -3,6 +3,7 @@ package bloomsearch
 import (
 	"context"
 	"log/slog"
+	"os"
 	"time"
 )
 
@@ -18,6 +19,8 @@ import (
 // ReadFileMetadata / ReadDataBlockRowData.
 // ---------------------------------------------------------------------------------------------
 
+var vpFSWorldRoot = "/d"
+
 type vpFSWorld struct {
 	fs    *vpFSModel
 	store *FileSystemDataStore
@@ -26,8 +29,12 @@ type vpFSWorld struct {
 }
 
 func vpNewFSWorld() *vpFSWorld {
-	w := &vpFSWorld{fs: vpNewFS()}
-	w.store = &FileSystemDataStore{rootDir: "/d"}
+	vpFSWorldRoot = vpFSRoot()
+	w := &vpFSWorld{}
+	if vpSymbolic() {
+		w.fs = vpNewFS()
+	}
+	w.store = &FileSystemDataStore{rootDir: vpFSWorldRoot}
 	w.store.drawFileName = func() string {
 		w.names++
 		return "f" + string(rune('0'+w.names))
@@ -62,7 +69,7 @@ func (w *vpFSWorld) flush(rows []vpRowSpec) error {
 // vpScanRows: what a fresh engine over the current directory (vpFS) would serve: every file the
 // real scan lists must be completely readable; returns the row texts of all of them.
 func vpScanRows() []string {
-	store := &FileSystemDataStore{rootDir: "/d"}
+	store := &FileSystemDataStore{rootDir: vpFSWorldRoot}
 	ctx := context.Background()
 	var rows []string
 	for f, err := range store.GetMaybeFilesForQuery(ctx, nil) {
@@ -264,4 +271,38 @@ func HS_C14_known_directory_scan_during_a_merge_sees_rows_twice() {
 	n1, n2 := vpCount(rows, r1[0].text()), vpCount(rows, r2[0].text())
 	vpAssert(n1 >= 1 && n2 >= 1 && n1+n2 == len(rows), "C14: a directory scan during a merge loses an acknowledged row or sees a foreign one")
 	vpAssert(n1 <= 1 && n2 <= 1, "C14: a directory scan between the publication of a merge's output and the removal of its sources returns every merged row twice, without an error")
+}
+
+// Without a crash: what the real write path leaves in the directory is what a fresh store serves.
+// Natively this harness runs on a real temporary directory, which validates the directory model
+// against the operating system on the sampled paths.
+//
+//vp:override (*bs.bloomEntrySets).indexRow=vpIndexRowRec
+//vp:override (*bs.bloomEntrySets).buildFilters=vpBuildFiltersRec
+//vp:override bs.encodeFilterSection=vpEncodeSectionConst
+//vp:override bs.parseFilterSection=vpParseSectionOK
+//vp:maxsteps 900000
+//vp:bounds one or two one-row flushes (same or different partitions) and optionally the real Merge, FileSystemDataStore as both stores, then a fresh store's scan
+func H_C15_what_was_acknowledged_is_what_a_fresh_store_serves() {
+	w := vpNewFSWorld()
+	r1 := []vpRowSpec{{id: "a0", part: "p"}}
+	r2 := []vpRowSpec{{id: "b0", part: "p"}}
+	if nondetBool() {
+		r2[0].part = "q"
+	}
+	vpAssert(w.flush(r1) == nil, "C06: a fault-free flush was not acknowledged nil")
+	two := nondetBool()
+	if two {
+		vpAssert(w.flush(r2) == nil, "C06: a fault-free flush was not acknowledged nil")
+		if nondetBool() {
+			_, err := w.b.Merge(context.Background())
+			vpAssert(err == nil, "C13: a fault-free merge failed")
+		}
+	}
+	rows := vpScanRows()
+	n1, n2 := vpCount(rows, r1[0].text()), vpCount(rows, r2[0].text())
+	if !vpSymbolic() {
+		os.RemoveAll(vpFSWorldRoot)
+	}
+	vpAssert(n1 == 1 && (n2 == 1) == two && n1+n2 == len(rows), "C15: a fresh store over the directory does not serve exactly the acknowledged rows")
 }
